@@ -241,6 +241,50 @@ CHECKS += [
     ),
 ]
 
+CHECKS += [
+    dict(
+        id="C14",
+        text="Every string of length <= 4 (thorough 5) over 24 characters covering all operators, three bracket kinds, four quote "
+             "characters, back-slash and white space, every string of length <= 5 (6) over the 14 bracket / quote / escape characters, "
+             "every token string of <= 4 (5) tokens incl. [ ], and grammar-generated operand-validation corners (empty sets under every "
+             "operator, 43 exponent forms, string literals, '.' with and without context, all multistage shapes), x intercept mode x "
+             "feature-flag subsets, is parsed by the real parser under a 5 s watchdog.  The outcome must be a value, a FormulaParsingError, "
+             "or a SyntaxError justified by an invalid embedded Python fragment as delimited by an independent reference lexer; a string "
+             "that needs a disabled operator must be rejected.",
+        design_ref="DESIGN.md section 3 C14; notes/c14.md",
+        note="Trusted: models/lexer.py and models/wilkinson.py for 'needs a disabled operator'. One known finding (K1: NotImplementedError "
+             "for a nested multistage left-hand side, pinned by the existing suite).",
+    ),
+    dict(
+        id="C15",
+        text="(a) Every reference-accepted token sentence of <= 4 (thorough 5) tokens plus grammar-generated sentences with quoted leaves x "
+             "every placement of nothing / space / tab+newline at every boundary where an independent reference lexer keeps the "
+             "neighbours apart must parse identically to the single-space rendering. (b) Every name of <= 3 (4) characters over 17 "
+             "operator, bracket, quote and non-ASCII characters, back-quoted in seven forms, must yield that name verbatim and materialize "
+             "to that column. (c) 55 Python expressions x every subset of their own token boundaries re-spaced, both quote styles and "
+             "redundant parentheses, in brace and call form, must give one ast-equivalent, string-identical factor. (d) For every string of "
+             "<= 4 over 24 and <= 5 (6) over 14 characters, token spans must be ordered, disjoint and delimit their text.",
+        design_ref="DESIGN.md section 3 C15; notes/c15.md",
+        note="Trusted: models/lexer.py (reference lexer written from grammar.md and Python's lexical rules). Names containing a "
+             "back-slash are classed unspecified (escape handling is not documented).",
+    ),
+    dict(
+        id="C19",
+        text="The real Structured, LayeredMapping, SimpleFormula and OrderedSet classes against plain-Python reference models written from "
+             "their docstrings.  Structured: every shape up to nesting depth 4 / 6 nodes (keys, tuples, 0-2 redundant wrappers) under _map "
+             "(all callback forms, recurse), _flatten, _to_dict, _simplify (all flag combinations), access, equality, pickling, _update / "
+             "assignment, and _merge of every pair (thorough: small triples).  LayeredMapping: every stack of <= 3 plain or nested named "
+             "layers over three keys with every history of <= 3 (4) mutating events (set, del, named_layers, with_layers prepend / append x "
+             "inplace x naming), comparing lookups with source-layer names, length and the supplied layers after every event and every "
+             "read operation after every history.  SimpleFormula: every history of <= 3 (4) sequence mutations over five terms for the "
+             "three ordering modes, compared with a re-sorted list after every event.",
+        design_ref="DESIGN.md section 3 C19; notes/c19.md",
+        note="Trusted: models/containers_ref.py. Undocumented behaviours (slice assignment, intersection order, reverse() in degree "
+             "mode, _merge of tuple with non-tuple, with_layers resetting the name) are counted, not flagged.",
+        bfs=True,
+    ),
+]
+
 ALL = ["C%02d" % i for i in range(1, 21)]
 _reason = "check not built yet in this revision (work in progress; see DESIGN.md section 3 for the planned bounded-exhaustive check)"
 NOT_APPLICABLE = [dict(property_id=i, reason=_reason) for i in ALL if i not in {c["id"] for c in CHECKS}]
